@@ -1882,22 +1882,25 @@ type delimiterStackElement struct {
 	node  *Inline
 }
 
-const openersBottomCount = 9
+const openersBottomCount = 14
 
 func (elem delimiterStackElement) openersBottomIndex() int {
 	switch elem.typ {
-	case inlineDelimiterStar:
-		if elem.flags&openerFlag == 0 {
-			return elem.n % 3
-		} else {
-			return 3 + elem.n%3
+	case inlineDelimiterStar, inlineDelimiterUnderscore:
+		// The "multiple of 3" rule applies to both delimiter characters,
+		// so both need a lower bound per (closer can open, length mod 3).
+		i := elem.n % 3
+		if elem.flags&openerFlag != 0 {
+			i += 3
 		}
-	case inlineDelimiterUnderscore:
-		return 6
+		if elem.typ == inlineDelimiterUnderscore {
+			i += 6
+		}
+		return i
 	case inlineDelimiterLink:
-		return 7
+		return 12
 	case inlineDelimiterImage:
-		return 8
+		return 13
 	default:
 		panic("unreachable")
 	}
